@@ -79,6 +79,9 @@ def histories_for(pid, tier):
         key_hist(['get_value'])
     elif pid in ('C07', 'C19'):
         key_hist(['into_ordered_vec'], mids=('first_less_or_equal', 'get_value'))
+        if pid == 'C19':
+            # the arena has grown (9 entries), then the population drops: the export must not be sized from the arena
+            out.append(('key', ['insert_asc'] * 9 + ['clear', 'insert', 'into_ordered_vec'], 0))
     elif pid == 'C20':
         key_hist(['get_value', 'insert'] + KEY_Q)
     elif pid in ('C04', 'C05'):
